@@ -34,14 +34,16 @@ func (h *RTPInfo) Unmarshal(v base.HeaderValue) error {
 		// remove leading spaces
 		part = strings.TrimLeft(part, " ")
 
-		kvs, err := keyValParse(part, ';')
+		kvs, err := keyValParseOrdered(part, ';')
 		if err != nil {
 			return err
 		}
 
 		urlReceived := false
 
-		for k, v := range kvs {
+		for _, kv := range kvs {
+			k, v := kv.key, kv.value
+
 			switch k {
 			case "url":
 				e.URL = v
